@@ -80,6 +80,19 @@ type EvRec struct {
 	NN      types.NamespacedName
 	Peek    state.VerifC01Peek
 	Pending int // pending changeType right after the capture
+	Before  int // pending changeType right before the capture
+}
+
+// Changed is what the REAL updater decided for this event. While nothing was pending it is read off the
+// pending changeType itself (exact, whatever the code does); otherwise it is the peeked predicate verdict.
+func (e EvRec) Changed() bool {
+	if e.Before == 0 {
+		return e.Pending != 0
+	}
+	if e.Del && e.Peek.Persisted && !e.Peek.InStore {
+		return false
+	}
+	return e.Peek.Verdict
 }
 
 type peekProc struct {
@@ -91,6 +104,7 @@ type peekProc struct {
 func (q *peekProc) CaptureUpsertChange(obj client.Object) {
 	r := EvRec{Kind: p.KindOf(obj), NN: client.ObjectKeyFromObject(obj)}
 	r.Peek = q.real.VerifC01PeekUpsert(obj)
+	r.Before = q.real.VerifC01Pending()
 	q.real.CaptureUpsertChange(obj)
 	r.Pending = q.real.VerifC01Pending()
 	q.log = append(q.log, r)
@@ -99,6 +113,7 @@ func (q *peekProc) CaptureUpsertChange(obj client.Object) {
 func (q *peekProc) CaptureDeleteChange(t ngftypes.ObjectType, nn types.NamespacedName) {
 	r := EvRec{Kind: p.KindOf(t), Del: true, NN: nn}
 	r.Peek = q.real.VerifC01PeekDelete(t, nn)
+	r.Before = q.real.VerifC01Pending()
 	q.real.CaptureDeleteChange(t, nn)
 	r.Pending = q.real.VerifC01Pending()
 	q.log = append(q.log, r)
